@@ -21,9 +21,18 @@ def script(name, module, func, **kw):
     return d
 
 CHECKS = {
+    "C04": {"crate": "h_engines", "bin": "c04", "level": "exploration", "legs": [native()]},
+    "C05": {"crate": "h_engines", "bin": "c05", "level": "exploration", "legs": [
+        native(),
+        tsan(args={"all": {"part": "concurrent"}}),
+    ]},
     "C07": {"crate": "h_store", "bin": "c07", "level": "exploration", "legs": [
         native(),
         script("strace-kill", "legs_c07", "strace_leg"),
+    ]},
+    "C09": {"crate": "h_engines", "bin": "c09", "level": "exploration", "legs": [
+        native(),
+        tsan(args={"all": {"only": "threads"}}),
     ]},
     "C10": {"crate": "h_chain", "bin": "c10", "level": "fault_enumeration", "legs": [
         native(),
@@ -33,10 +42,24 @@ CHECKS = {
         native(),
         tsan(args={"quick": {"part": "stress", "budget-s": 25}, "thorough": {"part": "stress", "budget-s": 300}}),
     ]},
+    "C01": {"crate": "h_chain", "bin": "c01", "level": "exploration", "legs": [
+        native(),
+        asan(tiers=["thorough"], args={"thorough": {"budget-s": 240, "cases": 4000, "floor-pct": 2, "threads": 8}}),
+    ]},
     "C02": {"crate": "h_store", "bin": "c02", "level": "fault_enumeration", "legs": [
         native(),
         script("strace-ack", "legs_fsync", "c02_leg"),
         asan(tiers=["thorough"], args={"thorough": {"budget-s": 240, "images": 24, "chains": 1, "threads": 8}}),
+    ]},
+    "C18": {"crate": "h_engines", "bin": "c18", "level": "exploration", "legs": [native()]},
+    "C15": {"crate": "h_engines", "bin": "c15", "level": "exploration", "legs": [native()]},
+    "C19": {"crate": "h_misc", "bin": "c19", "level": "exploration", "legs": [
+        native(),
+        tsan(args={"quick": {"part": "concurrent", "budget-s": 30}, "thorough": {"part": "concurrent", "budget-s": 300}}),
+    ]},
+    "C16": {"crate": "h_chain", "bin": "c16", "level": "exploration", "legs": [
+        native(),
+        tsan(args={"quick": {"part": "concurrent", "budget-s": 30}, "thorough": {"part": "concurrent", "budget-s": 300}}),
     ]},
     "C17": {"crate": "h_chain", "bin": "c17", "level": "exploration", "legs": [native()]},
 }
